@@ -3,19 +3,426 @@ package simnet
 import (
 	"crypto/tls"
 	"errors"
+	"fmt"
+	"io"
 	"net"
+	"net/netip"
+	"strconv"
+	"time"
+
+	"verif.local/sim/simcore"
 )
+
+// In-memory byte streams (simulated TCP) that carry TLS: in-order bytes,
+// tape-chosen segmentation and delays, reset or FIN at a chosen byte offset.
+
+// StreamPlan holds the fault knobs of one connection.
+type StreamPlan struct {
+	MinLatency, MaxLatency time.Duration
+	Segment                bool // split writes into tape-chosen segments
+	// CutAfter[dir] >= 0: the direction (0 = dialer->listener, 1 = listener->dialer)
+	// breaks after that many bytes have been delivered; -1 = never.
+	CutAfter [2]int64
+	CutReset bool // true: reader gets a reset error, false: clean EOF (FIN)
+	Refuse   bool // connection refused at dial
+}
+
+func DefaultStreamPlan() StreamPlan {
+	return StreamPlan{MinLatency: 100 * time.Microsecond, MaxLatency: 100 * time.Microsecond, CutAfter: [2]int64{-1, -1}}
+}
+
+type halfPipe struct {
+	buf       []byte // delivered, unread
+	eof       bool   // no more data will arrive (FIN seen)
+	reset     bool
+	sent      int64 // bytes handed to the network so far
+	delivered int64
+	lastAt    time.Time // delivery instant of the last scheduled segment (keeps order)
+	closed    bool      // writer closed
+}
+
+// StreamConn is one end of a simulated TCP connection.
+type StreamConn struct {
+	net    *Net
+	host   *Host
+	name   string
+	id     int
+	dir    int // 0 = dialer side, 1 = listener side
+	peer   *StreamConn
+	rx     *halfPipe // data flowing towards this end
+	local  netip.AddrPort
+	remote netip.AddrPort
+	plan   *StreamPlan
+	rdl    time.Time
+	closed bool
+	opSeq  uint64
+
+	BytesRead, BytesWritten int64
+	Reads                   int
+}
+
+func (c *StreamConn) opID(kind string) string {
+	c.opSeq++
+	return kind + ":" + c.name + ":" + strconv.FormatUint(c.opSeq, 10)
+}
+
+func (c *StreamConn) Read(p []byte) (int, error) {
+	n := c.net
+	n.mu.Lock()
+	id := c.opID("sread")
+	dl := c.rdl
+	n.mu.Unlock()
+	res := n.R.Park(&simcore.Op{ID: id, Node: c.host.Node, Deadline: dl, Ready: func() bool {
+		n.mu.Lock()
+		defer n.mu.Unlock()
+		return len(c.rx.buf) > 0 || c.rx.eof || c.rx.reset || c.closed
+	}})
+	if res.Killed {
+		runtimeGoexit()
+	}
+	n.mu.Lock()
+	defer n.mu.Unlock()
+	if c.closed {
+		return 0, net.ErrClosed
+	}
+	if len(c.rx.buf) > 0 {
+		k := copy(p, c.rx.buf)
+		c.rx.buf = c.rx.buf[k:]
+		c.BytesRead += int64(k)
+		c.Reads++
+		n.R.Log("sread %s n=%d", c.name, k)
+		return k, nil
+	}
+	if c.rx.reset {
+		n.R.Log("sread %s reset", c.name)
+		return 0, errors.New("simnet: read: connection reset by peer")
+	}
+	if c.rx.eof {
+		n.R.Log("sread %s eof", c.name)
+		return 0, io.EOF
+	}
+	n.R.Log("sread %s timeout", c.name)
+	return 0, timeoutError{}
+}
+
+func (c *StreamConn) Write(p []byte) (int, error) {
+	n := c.net
+	n.mu.Lock()
+	id := c.opID("swrite")
+	n.mu.Unlock()
+	res := n.R.Park(&simcore.Op{ID: id, Node: c.host.Node, NoDelay: true, Ready: func() bool { return true }})
+	if res.Killed {
+		runtimeGoexit()
+	}
+	n.mu.Lock()
+	if c.closed {
+		n.mu.Unlock()
+		return 0, net.ErrClosed
+	}
+	tx := c.peer.rx // the pipe towards the peer
+	if tx.reset {
+		n.mu.Unlock()
+		return 0, errors.New("simnet: write: broken pipe")
+	}
+	t := n.R.Tape
+	data := append([]byte(nil), p...)
+	// segmentation
+	var segs [][]byte
+	if c.plan.Segment && len(data) > 1 {
+		for len(data) > 0 {
+			k := len(data)
+			switch t.Pick([]uint64{2, 3, 3}, "seg.kind") {
+			case 1:
+				k = 1 + t.Intn(len(data), "seg.len")
+			case 2:
+				k = 1 + t.Intn(min(len(data), 8), "seg.small")
+			}
+			segs = append(segs, data[:k])
+			data = data[k:]
+		}
+	} else {
+		segs = [][]byte{data}
+	}
+	now := time.Now()
+	cut := c.plan.CutAfter[c.dir]
+	for _, s := range segs {
+		if cut >= 0 && tx.sent >= cut {
+			break
+		}
+		if cut >= 0 && tx.sent+int64(len(s)) > cut {
+			s = s[:cut-tx.sent]
+		}
+		tx.sent += int64(len(s))
+		lat := c.plan.MinLatency
+		if c.plan.MaxLatency > c.plan.MinLatency {
+			lat += time.Duration(t.Range(0, int64(c.plan.MaxLatency-c.plan.MinLatency), "slat"))
+		}
+		at := now.Add(lat)
+		if at.Before(tx.lastAt) {
+			at = tx.lastAt // TCP delivers in order
+		}
+		tx.lastAt = at
+		seg := s
+		n.R.At(at, func() {
+			n.mu.Lock()
+			if !tx.reset && !tx.eof {
+				tx.buf = append(tx.buf, seg...)
+				tx.delivered += int64(len(seg))
+			}
+			n.mu.Unlock()
+			n.R.Log("sdeliver %s n=%d", c.peer.name, len(seg))
+		})
+	}
+	if cut >= 0 && tx.sent >= cut && !tx.closed {
+		// the connection breaks here
+		tx.closed = true
+		rst := c.plan.CutReset
+		at := tx.lastAt
+		if at.Before(now) {
+			at = now
+		}
+		n.R.Fault(map[bool]string{true: "stream-reset", false: "stream-fin"}[rst])
+		n.R.At(at, func() {
+			n.mu.Lock()
+			if rst {
+				tx.reset = true
+				tx.buf = nil
+			} else {
+				tx.eof = true
+			}
+			n.mu.Unlock()
+			n.R.Log("scut %s reset=%v", c.peer.name, rst)
+		})
+	}
+	c.BytesWritten += int64(len(p))
+	n.mu.Unlock()
+	n.R.Log("swrite %s n=%d segs=%d", c.name, len(p), len(segs))
+	return len(p), nil
+}
+
+func (c *StreamConn) Close() error {
+	n := c.net
+	n.mu.Lock()
+	defer n.mu.Unlock()
+	if c.closed {
+		return net.ErrClosed
+	}
+	c.closed = true
+	tx := c.peer.rx
+	if !tx.closed {
+		tx.closed = true
+		at := tx.lastAt
+		if now := time.Now(); at.Before(now) {
+			at = now
+		}
+		n.R.At(at, func() {
+			n.mu.Lock()
+			tx.eof = true
+			n.mu.Unlock()
+		})
+	}
+	n.R.Log("sclose %s", c.name)
+	return nil
+}
+
+func (c *StreamConn) LocalAddr() net.Addr {
+	return &net.TCPAddr{IP: c.local.Addr().AsSlice(), Port: int(c.local.Port())}
+}
+func (c *StreamConn) RemoteAddr() net.Addr {
+	return &net.TCPAddr{IP: c.remote.Addr().AsSlice(), Port: int(c.remote.Port())}
+}
+func (c *StreamConn) SetDeadline(t time.Time) error {
+	c.net.mu.Lock()
+	c.rdl = t
+	c.net.mu.Unlock()
+	return nil
+}
+func (c *StreamConn) SetReadDeadline(t time.Time) error  { return c.SetDeadline(t) }
+func (c *StreamConn) SetWriteDeadline(t time.Time) error { return nil }
+func (c *StreamConn) Name() string                       { return c.name }
+
+// StreamListener accepts simulated TCP connections.
+type StreamListener struct {
+	net     *Net
+	host    *Host
+	addr    netip.AddrPort
+	backlog []*StreamConn
+	closed  bool
+	tlsCfg  *tls.Config
+	opSeq   uint64
+	// PlanFor decides the fault plan of each incoming connection (nil = default).
+	PlanFor  func(k int) *StreamPlan
+	accepted int
+}
+
+func (l *StreamListener) Addr() net.Addr {
+	return &net.TCPAddr{IP: l.addr.Addr().AsSlice(), Port: int(l.addr.Port())}
+}
+
+func (l *StreamListener) Close() error {
+	l.net.mu.Lock()
+	l.closed = true
+	delete(l.net.streamListeners, l.addr)
+	l.net.mu.Unlock()
+	return nil
+}
+
+// AcceptRaw returns the next raw connection.
+func (l *StreamListener) AcceptRaw() (*StreamConn, error) {
+	n := l.net
+	n.mu.Lock()
+	l.opSeq++
+	id := fmt.Sprintf("accept:%s/%d:%d", l.host.Node.Name, l.addr.Port(), l.opSeq)
+	n.mu.Unlock()
+	res := n.R.Park(&simcore.Op{ID: id, Node: l.host.Node, Ready: func() bool {
+		n.mu.Lock()
+		defer n.mu.Unlock()
+		return len(l.backlog) > 0 || l.closed
+	}})
+	if res.Killed {
+		runtimeGoexit()
+	}
+	n.mu.Lock()
+	defer n.mu.Unlock()
+	if l.closed {
+		return nil, net.ErrClosed
+	}
+	c := l.backlog[0]
+	l.backlog = l.backlog[1:]
+	return c, nil
+}
+
+// Accept returns a *tls.Conn when the listener was made by TLSListen.
+func (l *StreamListener) Accept() (net.Conn, error) {
+	c, err := l.AcceptRaw()
+	if err != nil {
+		return nil, err
+	}
+	if l.tlsCfg != nil {
+		return tls.Server(c, l.tlsCfg), nil
+	}
+	return c, nil
+}
+
+// ListenStream binds a simulated TCP listener (worlds call it from the root goroutine).
+func (n *Net) ListenStream(addr string, cfg *tls.Config) (*StreamListener, error) {
+	ap, err := netip.ParseAddrPort(addr)
+	if err != nil {
+		return nil, err
+	}
+	h := n.hosts[ap.Addr().Unmap()]
+	if h == nil {
+		return nil, fmt.Errorf("simnet: listen %v: cannot assign requested address", ap)
+	}
+	n.mu.Lock()
+	defer n.mu.Unlock()
+	if n.streamListeners == nil {
+		n.streamListeners = map[netip.AddrPort]*StreamListener{}
+	}
+	if n.streamListeners[ap] != nil {
+		return nil, fmt.Errorf("simnet: listen %v: address already in use", ap)
+	}
+	l := &StreamListener{net: n, host: h, addr: ap, tlsCfg: cfg}
+	n.streamListeners[ap] = l
+	return l, nil
+}
 
 // TLSListen stands in for tls.Listen.
 func TLSListen(network, laddr string, config *tls.Config) (net.Listener, error) {
-	return nil, errors.New("simnet: TLSListen not wired in this world")
+	n := Active()
+	if n == nil {
+		return nil, errors.New("simnet: no active network")
+	}
+	return n.ListenStream(laddr, config)
 }
 
-// TLSDialWithDialer stands in for tls.DialWithDialer.
+// DialStream opens a simulated TCP connection from host `from` to addr.
+func (n *Net) DialStream(from *Host, addr string) (*StreamConn, error) {
+	hostS, portS, err := net.SplitHostPort(addr)
+	if err != nil {
+		return nil, err
+	}
+	port, err := strconv.Atoi(portS)
+	if err != nil {
+		return nil, err
+	}
+	ip, err := netip.ParseAddr(hostS)
+	if err != nil {
+		var ok bool
+		if ip, ok = n.Names[hostS]; !ok {
+			return nil, fmt.Errorf("simnet: dial: lookup %s: no such host", hostS)
+		}
+	}
+	ap := netip.AddrPortFrom(ip.Unmap(), uint16(port))
+	n.mu.Lock()
+	n.streamSeq++
+	k := n.streamSeq
+	id := fmt.Sprintf("dial:%s:%d", from.Node.Name, k)
+	n.mu.Unlock()
+	res := n.R.Park(&simcore.Op{ID: id, Node: from.Node, NoDelay: true, Ready: func() bool { return true }})
+	if res.Killed {
+		runtimeGoexit()
+	}
+	n.mu.Lock()
+	defer n.mu.Unlock()
+	l := n.streamListeners[ap]
+	if l == nil || l.closed || l.host.Node.Dead {
+		n.R.Log("dial %s -> %v refused", from.Node.Name, ap)
+		return nil, errors.New("simnet: dial: connection refused")
+	}
+	plan := DefaultStreamPlan()
+	if l.PlanFor != nil {
+		if p := l.PlanFor(l.accepted); p != nil {
+			plan = *p
+		}
+	}
+	l.accepted++
+	if plan.Refuse {
+		n.R.Fault("connection-refused")
+		return nil, errors.New("simnet: dial: connection refused")
+	}
+	p := n.nextEph[from.Addrs[0]]
+	if p == 0 {
+		p = 40000
+	}
+	n.nextEph[from.Addrs[0]] = p + 1
+	local := netip.AddrPortFrom(from.Addrs[0], p)
+	a := &StreamConn{net: n, host: from, id: k, dir: 0, rx: &halfPipe{}, local: local, remote: ap, plan: &plan,
+		name: fmt.Sprintf("%s>%s#%d", from.Node.Name, l.host.Node.Name, k)}
+	b := &StreamConn{net: n, host: l.host, id: k, dir: 1, rx: &halfPipe{}, local: ap, remote: local, plan: &plan,
+		name: fmt.Sprintf("%s<%s#%d", l.host.Node.Name, from.Node.Name, k)}
+	a.peer, b.peer = b, a
+	l.backlog = append(l.backlog, b)
+	n.R.Log("dial %s", a.name)
+	return a, nil
+}
+
+// TLSDialWithDialer stands in for tls.DialWithDialer: it dials from the host
+// the world designated as the TLS client host and runs the real client handshake.
 func TLSDialWithDialer(dialer *net.Dialer, network, addr string, config *tls.Config) (*tls.Conn, error) {
 	n := Active()
-	if n == nil || n.DialTLS == nil {
-		return nil, errors.New("simnet: no TLS dialer in this world")
+	if n == nil || n.TLSClientHost == nil {
+		return nil, errors.New("simnet: no TLS client host in this world")
 	}
-	return n.DialTLS(dialer, network, addr, config)
+	raw, err := n.DialStream(n.TLSClientHost, addr)
+	if err != nil {
+		return nil, err
+	}
+	if dialer != nil && dialer.Timeout > 0 {
+		raw.SetDeadline(time.Now().Add(dialer.Timeout))
+	}
+	// tls.DialWithDialer derives ServerName from addr when the config has none
+	if config.ServerName == "" && !config.InsecureSkipVerify {
+		host, _, _ := net.SplitHostPort(addr)
+		c2 := config.Clone()
+		c2.ServerName = host
+		config = c2
+	}
+	conn := tls.Client(raw, config)
+	if err := conn.Handshake(); err != nil {
+		raw.Close()
+		return nil, err
+	}
+	raw.SetDeadline(time.Time{})
+	return conn, nil
 }
